@@ -8,10 +8,11 @@ import GoflowModel.Driver.Contact
 import GoflowModel.Driver.Values
 import GoflowModel.Driver.Expr
 import GoflowModel.Driver.Legacy
+import GoflowModel.Driver.LegacyFull
 import GoflowModel.Driver.Json
 open GoflowModel
 
-def handlers : List (List String → Option String) := [Driver.C12.handle, Driver.CQL.handle, Driver.Engine.handle, Driver.Router.handle, Driver.Localize.handle, Driver.Inspect.handle, Driver.Contact.handle, Driver.Values.handle, Driver.Expr.handle, Driver.Legacy.handle, Driver.Json.handle]
+def handlers : List (List String → Option String) := [Driver.C12.handle, Driver.CQL.handle, Driver.Engine.handle, Driver.Router.handle, Driver.Localize.handle, Driver.Inspect.handle, Driver.Contact.handle, Driver.Values.handle, Driver.Expr.handle, Driver.Legacy.handle, Driver.LegacyFull.handle, Driver.Json.handle]
 
 def step (line : String) : String :=
   let toks := (line.trimAscii.toString.splitOn " ").filter (· ≠ "")
